@@ -154,6 +154,15 @@ Theorem C14_stitch_none_iff : forall ps, Forall (fun p => StronglySorted Qlt (ma
 Proof. exact stitch_none_iff. Qed.
 Print Assumptions C14_stitch_none_iff.
 
+(* several substreams (self-cal: one per target): a part that some substream lacks is absent altogether, a part all
+   substreams have is their time-ordered concatenation (a single substream: the sensor itself), then stitched *)
+Theorem C14_stitch_substreams :
+  (forall parts, stitch_substreams parts = stitch (map part_of_substreams parts)) /\
+  (forall subs, In None subs -> part_of_substreams subs = []) /\
+  (forall ps, part_of_substreams (map Some ps) = match ps with [p] => p | _ => merge_substreams ps end).
+Proof. exact stitch_substreams_spec. Qed.
+Print Assumptions C14_stitch_substreams.
+
 Theorem C14_stitch_parts_in_channel_order : forall pcs,
   assemble pcs = flat_map (fun pc => match pc with Some v => v | None => map (fun _ => None) (last_present pcs []) end) pcs
   /\ (forall ps, (forall p, In p ps -> p = []) -> stitch ps = None).
